@@ -132,6 +132,7 @@ func check(args []string) int {
 	if *tier == "thorough" {
 		timeout = 60
 	}
+	vc.QuickTier = *tier != "thorough"
 	tmp, _ := os.MkdirTemp("", "ionvc-")
 	defer os.RemoveAll(tmp)
 	opts := &vc.SolveOpts{TimeoutS: timeout, TmpDir: tmp, Sem: make(chan struct{}, 16)}
@@ -488,6 +489,7 @@ func lockCmd(args []string) int {
 		return 2
 	}
 	lock := lockFile{}
+	vc.QuickTier = true // the lock holds the quick tier's minimum
 	for _, c := range w.Contracts {
 		if c.Iface || c.Trusted || c.ModelOf != "" || c.OpaqueFn != "" {
 			continue
